@@ -104,6 +104,48 @@ def generate(g, tier):
                 out = ([] if kw == 'STARTENV' else ['STRING in=42']) + (['STRING also'] if extra else []) + ['STRING out=42,6']
                 cases.append(dict(op='compile_file', file='proj/main.txt', files={'proj/main.txt': '\n'.join(main), 'proj/lib.txt': lib},
                                   meta=dict(family='import-assigns', exp=['ok', out, [], {'x': 42, 'y': 6}])))
+    # what an imported file creates inside a block dies with the block too — variables AND functions — whatever the enclosing
+    # code or the block itself defined before the import, for every block kind and import command; the next iteration / the
+    # next call does not see it either (a file is only a way of writing the block's statements somewhere else)
+    def wrapk(k, lines, n=1):
+        head = {'if': 'IF TRUE', 'else': 'IF FALSE\n    PASS\nELSE', 'repeat': f'REPEAT {n}', 'while': f'WHILE w8,w8<{n}'}.get(k)
+        if head: return head.split('\n') + ['    ' + l for l in lines]
+        return ['FUNC ld'] + ['    ' + l for l in lines] + ['RUN ld'] * n
+    lib = 'VAR born 9\nFUNC helper\n    STRING helper-ran\nFUNC greet2 who\n    $STRING "lib-greets "+who\nSTRING lib-ran'
+    for kw in ('START', 'STARTENV', 'STARTCODE'):
+        for blk in ('if', 'else', 'repeat', 'while', 'func', 'if-if', 'func-if', 'repeat-func'):
+            for prior in ('none', 'func', 'var', 'both', 'same'):
+                for own_first in (False, True):
+                    for probe in ('func', 'var', 'round2'):
+                        pre = []
+                        if prior in ('func', 'both'): pre += ['FUNC greet', '    STRING hi']
+                        if prior in ('var', 'both'): pre += ['VAR seen 1']
+                        if prior == 'same': pre += ['FUNC greet2 who', '    $STRING "main-greets "+who']
+                        inner = (['FUNC own', '    STRING own-ran', 'RUN own'] if own_first else [])
+                        usable = kw != 'STARTCODE'
+                        if probe == 'round2':
+                            # two rounds of the innermost block: the second must not see what the first imported
+                            inner = ['NOTEXIST born'] + inner + [f'{kw} lib'] + (['RUN helper'] if usable else [])
+                            lines = inner; ks = blk.split('-')
+                            for j, k in enumerate(reversed(ks)): lines = wrapk(k, lines, 2 if j == len(ks) - 1 and k in ('repeat', 'while', 'func') else 1)
+                            rounds = 2 if ks[0] in ('repeat', 'while', 'func') else 1
+                            one = (['STRING own-ran'] if own_first else []) + ([] if kw == 'STARTENV' else ['STRING lib-ran']) + (['STRING helper-ran'] if usable else [])
+                            main = pre + lines + ['NOTEXIST born', 'STRING end']
+                            exp = ['ok', one * rounds + ['STRING end'], [], None]
+                        else:
+                            inner = inner + [f'{kw} lib'] + (['RUN helper', 'RUN greet2 "x"'] if usable else [])
+                            lines = inner
+                            for k in reversed(blk.split('-')): lines = wrapk(k, lines)
+                            out = (['STRING own-ran'] if own_first else []) + ([] if kw == 'STARTENV' else ['STRING lib-ran']) + (['STRING helper-ran', 'STRING lib-greets x'] if usable else [])
+                            main = pre + lines
+                            if probe == 'var':
+                                main += ['NOTEXIST born', 'STRING end'] + (['RUN greet2 "y"'] if prior == 'same' else [])
+                                exp = ['ok', out + ['STRING end'] + (['STRING main-greets y'] if prior == 'same' else []), [], None]
+                            else:
+                                main += ['RUN helper']
+                                exp = ['err', 'VarIsNonExistentError']
+                        cases.append(dict(op='compile_file', file='proj/main.txt', files={'proj/main.txt': '\n'.join(main), 'proj/lib.txt': lib},
+                                          meta=dict(family='import-in-block-dies', exp=exp)))
     return cases
 
 
